@@ -20,6 +20,7 @@ Alpha == {97, 46, 61}
 StrsQ == UNION {[1..n -> Alpha] : n \in 0..3}
 StrsT == UNION {[1..n -> Alpha] : n \in 0..4}
 SepsQ == {46}
+SepsT == {46, 61}
 AsgsQ == {0, 61}
 ElemsQ == {<<>>, <<97>>, <<98, 97>>}
 NoStrs == {}
@@ -28,7 +29,8 @@ GenInit == Init /\ hist = <<Call(obs)>>
 GenSpecC == GenInit /\ [][NextC /\ hist' = Append(hist, Call(obs'))]_<<vars, hist>>
 GenSpecP == GenInit /\ [][NextP /\ hist' = Append(hist, Call(obs'))]_<<vars, hist>>
 Bound  == Count(st) <= MaxSlots
-BoundP == Len(pel) <= 3 /\ Len(po.buf) <= 7
+BoundP  == Len(pel) <= 3 /\ Len(po.buf) <= 6
+BoundPT == Len(pel) <= 4 /\ Len(po.buf) <= 8
 ViewC  == <<tree, st>>
 ViewP  == <<pel, po>>
 Emit   == PrintT(<<"BEHAV", ToJson(Append(hist, obs'))>>)
